@@ -871,6 +871,13 @@ CHECKS['C18']['note'] = CHECKS['C18']['note'] + (
     'has another syntactic form, are fitted behaviourally on the live functions (n = 3..9) and verified on a second set of lengths; '
     'the source (ast or live) is recorded in the evidence, and extraction fails closed otherwise.')
 
+CHECKS['C03']['note'] = CHECKS['C03']['note'] + (
+    ' The zoo instances are chosen per _call branch: a per-class branch-coverage table is measured on every run (sys.monitoring), '
+    'and an untaken branch outside the recorded baseline fails the thorough tier. The wrapper strata include Operator.__pow__ '
+    '(n = 1..4) and the derivative and adjoint wrappers that share a cached temporary. Open finding C03-F12 (Huber(space, 0).gradient).')
+CHECKS['C10']['note'] = CHECKS['C10']['note'] + (
+    ' Statelessness is tested per instance and across instances of one factory or class, against operators built by a new factory call.')
+
 NOT_YET = {}
 
 
